@@ -1144,19 +1144,26 @@ pub fn t11() -> BoxedStrategy<Value> {
 pub fn t12() -> BoxedStrategy<Value> {
     (
         0u8..48,
-        (2usize..5, 0u8..5, 0u8..4, 1u8..5, any::<bool>()),
+        (2usize..5, 0u8..5, 0u8..4, 1u8..5, 0u8..4),
         (0u8..3, any::<bool>(), 0u8..3, any::<bool>(), 0u8..3),
         any::<bool>(),
     )
-        .prop_map(|(align, (np, gap, settle, k, two_live), (reader_kind, parents_after_read, split, m_pinned, late), prestamp)| {
+        .prop_map(|(align, (np, gap, settle, k, live), (reader_kind, parents_after_read, split, m_pinned, late), prestamp)| {
             let (a, r, m) = (0usize, 1usize, 2usize);
             let mut t = TB::new(3);
             t.prestamp = prestamp;
             t.new_node(a, "B", None, None, 3, 63);
             t.downgrade(a, "B", "wB");
+            // live = 0: B is owned by the parents' links only and can be reached through the weak
+            // cell alone; 1, 2: also linked from live cells (3 counts as 1)
+            let two_live = live == 2;
+            let no_live = live == 0;
+            let reader_kind = if no_live { 1 } else { reader_kind };
             t.pin(a);
-            t.clone_rc(a, "B", "Bc");
-            t.store(a, C::Root(1), Some("Bc"), 0);
+            if !no_live {
+                t.clone_rc(a, "B", "Bc");
+                t.store(a, C::Root(1), Some("Bc"), 0);
+            }
             if two_live {
                 t.clone_rc(a, "B", "Bd");
                 t.store(a, C::Root(2), Some("Bd"), 0);
@@ -1205,8 +1212,10 @@ pub fn t12() -> BoxedStrategy<Value> {
             if m_pinned {
                 t.pin(m);
             }
-            t.swap_null(m, C::Root(1), "Bm");
-            t.drop_rc(m, "Bm");
+            if !no_live {
+                t.swap_null(m, C::Root(1), "Bm");
+                t.drop_rc(m, "Bm");
+            }
             if two_live {
                 t.swap_null(m, C::Root(2), "Bn");
                 t.drop_rc(m, "Bn");
